@@ -14,6 +14,7 @@ import TboxModel.C09.Reframe
 import TboxModel.C09.Dispatch
 import TboxModel.C09.FileFaults
 import TboxModel.C09.FileFaultsK
+import TboxModel.C09.ReopenProofs
 namespace Tbox.C09
 
 /-! ## (a) truncation -/
@@ -707,62 +708,148 @@ theorem C09_piece_overread_counterexample (cap : Nat) (s : Bytes) (hc : 0 < cap)
 
 /-! ### (f''') reconfiguration of a file sink that is in use -/
 
-/-- `setFilePath` / `setFilePrefix` / `setFileSyncEnable` (also to the value the sink already has) close the open file.
-When nothing is cached at that moment every record written so far lies wholly in one CLOSED file, in order; the
-next batch starts a new file. -/
-theorem C09_file_reopen_whole_records_partial (max : Nat) (bs : List (List Bytes × FOracle)) :
-    let s := fileRunK max {} bs
-    s.cache = [] →
-    let s' := reopenK s
-    s'.cur = none ∧ s'.cache = [] ∧ s'.files.flatten = ((bs.map (·.1)).flatten).flatten ∧
-    ∃ (gc : List (List Bytes)) (rest : List Bytes), s'.closed = gc.map List.flatten ∧
-      gc.flatten ++ rest = (bs.map (·.1)).flatten ∧ rest.flatten = [] := by
-  intro s hc s'
-  obtain ⟨hall, ⟨gc, gcur, hcl, hrec, hdat⟩, _, _⟩ := C09_file_whole_records_faults max bs
-  have hall' : s.files.flatten ++ s.cache = ((bs.map (·.1)).flatten).flatten := hall
-  have hcl' : s.closed = gc.map List.flatten := hcl
+/-- **`setFilePath` / `setFilePrefix` / `setFileSyncEnable` (also to the value the sink already has) at ANY moment of a
+history of an enabled file sink** (after patches/C09-09) — between batches, while a tail is cached after a write error,
+several times in a row, between a failed and a successful retry of `disable()`, together with changes of the limit —
+and for every answer of the kernel to every `mkdir` / `open` / `write`:
+* nothing is lost or duplicated: files ++ cache = the rendered records, in order;
+* every CLOSED file is a whole number of records; the open file plus the cached tail is a whole number of records: the
+  rest of a cut record can only go to the SAME file — a record is never split over two files, whenever the setters are called. -/
+theorem C09_file_reopen_whole_records (max : Nat) (ops : List FOp) :
+    let s := (fileRunR max ops).2.st
+    let recs := (ops.map FOp.recs).flatten
+    s.files.flatten ++ s.cache = recs.flatten ∧
+    ∃ (gc : List (List Bytes)) (gcur : List Bytes), s.closed = gc.map List.flatten ∧
+      gc.flatten ++ gcur = recs ∧ curData s ++ s.cache = gcur.flatten := by
+  intro s recs
+  have h := foldl_fileStepR_ginv ops (max, {}) [] ginv_init
+  simp only [List.nil_append] at h
+  obtain ⟨gc, gcur, hcl, hrec, hdat⟩ := h
+  refine ⟨?_, gc, gcur, hcl, hrec, hdat⟩
+  show (fileRunR max ops).2.st.files.flatten ++ (fileRunR max ops).2.st.cache = ((ops.map FOp.recs).flatten).flatten
+  have hcl' : (fileRunR max ops).2.st.closed = gc.map List.flatten := hcl
+  have hdat' : curData (fileRunR max ops).2.st ++ (fileRunR max ops).2.st.cache = gcur.flatten := hdat
+  rw [files_flatten, List.append_assoc, hdat', hcl', flatten_map_flatten, ← hrec]; simp
+
+/-- … and once the cache is empty the directory satisfies the specification of the property (a grouping of the non-empty
+records, whole and in order, into files) — for histories with reconfigurations at any moment -/
+theorem C09_file_reopen_on_disk (max : Nat) (ops : List FOp) (hne : ∀ op ∈ ops, ∀ r ∈ op.recs, r ≠ []) :
+    let s := (fileRunR max ops).2.st
+    s.cache = [] → specFiles s.files (ops.map FOp.recs).flatten := by
+  intro s hc
+  obtain ⟨_, gc, gcur, hcl, hrec, hdat⟩ := C09_file_reopen_whole_records max ops
   have hdat' : curData s ++ s.cache = gcur.flatten := hdat
-  rw [hc, List.append_nil] at hall' hdat'
+  rw [hc, List.append_nil] at hdat'
+  have hcl' : s.closed = gc.map List.flatten := hcl
   cases hcur : s.cur with
-  | none =>
-    have hs' : s' = s := by show reopenK s = s; simp [reopenK, hcur]
-    rw [hs']
-    refine ⟨hcur, hc, hall', gc, gcur, hcl', hrec, ?_⟩
-    rw [← hdat']; simp [curData, hcur]
   | some d =>
-    have hs' : s' = { s with closed := s.closed ++ [d], cur := none } := by show reopenK s = _; simp [reopenK, hcur]
-    rw [hs']
-    refine ⟨rfl, hc, ?_, gc ++ [gcur], [], ?_, by simpa using hrec, rfl⟩
-    · rw [← hall']; simp [FileSt.files, hcur]
-    · simp only [hcl', List.map_append, List.map_cons, List.map_nil]
-      rw [← hdat']; simp [curData, hcur]
+    refine ⟨gc ++ [gcur], by simpa using hrec, ?_⟩
+    simp only [curData, hcur] at hdat'
+    simp [FileSt.files, hcur, hcl', hdat']
+  | none =>
+    simp only [curData, hcur] at hdat'
+    have hg : gcur = [] := by
+      cases hgc : gcur with
+      | nil => rfl
+      | cons r rest =>
+        exfalso
+        have hr : r ∈ (ops.map FOp.recs).flatten := by rw [← hrec, hgc]; simp
+        obtain ⟨l, hl, hrl⟩ := List.mem_flatten.mp hr
+        obtain ⟨op, hop, rfl⟩ := List.mem_map.mp hl
+        have := hne op hop r hrl
+        rw [hgc] at hdat'
+        cases r with
+        | nil => exact this rfl
+        | cons x xs => simp at hdat'
+    refine ⟨gc, by rw [← hrec, hg]; simp, ?_⟩
+    simp [FileSt.files, hcur, hcl']
 
--- OPEN  C09_file_reopen_whole_records: the same for a reconfiguration at ANY moment (a tail cached after a write error).
--- False of the code as it is:
+example : (fileRunR 100 [.batch [[1, 2, 3, 10]] { writes := [.acc 2, .err] }, .reopen, .retry {}]).2.st.cache = [] ∧
+    ∀ op ∈ [FOp.batch [[1, 2, 3, 10]] { writes := [.acc 2, .err] }, .reopen, .retry {}], ∀ r ∈ op.recs, r ≠ [] := by decide
 
-/-- **a reconfiguration while a tail is cached splits a record**: limit 100, record `[1,2,3,10]`; `write` accepts 2 bytes,
-then fails hard (the tail `[3,10]` is retained, the file stays open); `setFilePath` (even to the same path) closes the
-file; the retry at `disable()` opens a new file and writes the tail there. -/
+/-- **the deferred close is not forgotten and not early**: in every reachable state the flag `need_reopen_` is pending only
+while a file is open AND a tail is cached; a setter called with nothing cached (or no file open) closes the file at once;
+a `flush()` that reaches the limit check with the flag set leaves no file open and clears the flag — the next batch
+starts a new file (with the new path / prefix / sync mode) -/
+theorem C09_file_reopen_deferred (max : Nat) (ops : List FOp) :
+    let s := (fileRunR max ops).2
+    (s.need = true → s.st.cur.isSome = true ∧ s.st.cache ≠ []) ∧
+    ((s.st.cur.isSome = false ∨ s.st.cache = []) → (reopenK s).st.cur = none ∧ (reopenK s).need = s.need ∧ (reopenK s).st.cache = s.st.cache) ∧
+    ((s.st.cur.isSome = true ∧ s.st.cache ≠ []) → reopenK s = { s with need := true }) ∧
+    (∀ o : FOracle, s.need = true → (flushR max s o).st.cache = [] → (flushR max s o).st.cur = none ∧ (flushR max s o).need = false) := by
+  intro s
+  have hn : NeedOk s := foldl_fileStepR_needOk ops (max, {}) (by intro h; cases h)
+  refine ⟨hn, ?_, ?_, ?_⟩
+  · intro h
+    have hc : (s.st.cur.isSome && !s.st.cache.isEmpty) = false := by
+      rcases h with h | h
+      · simp [h]
+      · simp [h]
+    unfold reopenK
+    rw [hc]
+    simp only [Bool.false_eq_true, ↓reduceIte]
+    cases hcur : s.st.cur <;> simp [closeNow, hcur]
+  · intro ⟨h1, h2⟩
+    unfold reopenK
+    have : (s.st.cur.isSome && !s.st.cache.isEmpty) = true := by simp [h1, h2]
+    rw [this]; rfl
+  · intro o hneed hc
+    have ⟨hcur, _⟩ := hn hneed
+    unfold flushR at hc ⊢
+    simp only [hneed, hcur, Bool.true_or, Bool.true_and, Bool.and_true] at hc ⊢
+    split
+    · simp only [and_true]
+      cases h : (flushK max s.st o).cur <;> simp [closeNow, h]
+    · rename_i hne
+      split at hc
+      · rename_i he; exact absurd he hne
+      · simp only at hc
+        exact absurd (by simp [hc]) hne
+
+/-- the code as found closed the file inside the setter: **a reconfiguration while a tail was cached split a record**:
+limit 100, record `[1,2,3,10]`; `write` accepts 2 bytes, then fails hard (the tail `[3,10]` is retained, the file stays
+open); `setFilePath` (even to the same path) closes the file; the retry at `disable()` opens a new file and writes the
+tail there.  The repaired code (second half) keeps the record in one file and closes that file as soon as the tail is in it. -/
 theorem C09_file_reconf_tail_counterexample :
     let s := fileRunK 100 {} [([[1, 2, 3, 10]], { writes := [.acc 2, .err] })]
     s.cache = [3, 10] ∧ (disableK 100 s {}).files = [[1, 2, 3, 10]] ∧
-    (disableK 100 (reopenK s) {}).files = [[1, 2], [3, 10]] ∧
-    (fileRunR 100 [.batch [[1, 2, 3, 10]] { writes := [.acc 2, .err] }, .reopen, .batch [[5, 10]] {}]).2.files = [[1, 2], [3, 10, 5, 10]] := by
+    (disableK 100 (closeNow s) {}).files = [[1, 2], [3, 10]] ∧
+    (fileRunAsFound 100 [.batch [[1, 2, 3, 10]] { writes := [.acc 2, .err] }, .reopen, .batch [[5, 10]] {}]).2.files = [[1, 2], [3, 10, 5, 10]] ∧
+    (fileRunR 100 [.batch [[1, 2, 3, 10]] { writes := [.acc 2, .err] }, .reopen, .batch [[5, 10]] {}]).2 =
+      { st := { closed := [[1, 2, 3, 10, 5, 10]], cur := none, total := 6, cache := [] }, need := false } ∧
+    (fileRunR 100 [.batch [[1, 2, 3, 10]] { writes := [.acc 2, .err] }, .reopen, .retry { writes := [.acc 1, .err] }, .reopen, .retry {},
+                   .batch [[5, 10]] {}]).2.st.files = [[1, 2, 3, 10], [5, 10]] := by
   decide
 
-/-- `setFileMaxSize` only stores the limit: the history with a changed limit is the history of the batches, each under the
-limit in force; lowering it below the size of the open file closes that file after the NEXT complete batch, never
-in the middle of one -/
+/-- histories without a reconfiguration are the histories of `fileRunK`: `setFileMaxSize` only stores the limit — the history
+with a changed limit is the history of the batches, each under the limit in force; lowering it below the size of the open
+file closes that file after the NEXT complete batch, never in the middle of one; the flag stays clear -/
 theorem C09_file_setmax (m1 m2 : Nat) (b1 b2 : List (List Bytes × FOracle)) :
     (fileRunR m1 ((b1.map fun b => FOp.batch b.1 b.2) ++ [.setMax m2] ++ (b2.map fun b => FOp.batch b.1 b.2))).2
-      = fileRunK m2 (fileRunK m1 {} b1) b2 := by
+      = { st := fileRunK m2 (fileRunK m1 {} b1) b2, need := false } := by
   have key : ∀ (m : Nat) (bs : List (List Bytes × FOracle)) (s : FileSt),
-      (bs.map fun b => FOp.batch b.1 b.2).foldl fileStepR (m, s) = (m, fileRunK m s bs) := by
+      (bs.map fun b => FOp.batch b.1 b.2).foldl fileStepR (m, { st := s, need := false }) = (m, { st := fileRunK m s bs, need := false }) := by
     intro m bs
     induction bs with
     | nil => intro s; rfl
-    | cons b bs ih => intro s; simp only [List.map_cons, List.foldl_cons, fileStepR, fileRunK]; exact ih _
-  simp only [fileRunR, List.foldl_append, List.foldl_cons, List.foldl_nil, key, fileStepR]
+    | cons b bs ih =>
+      intro s
+      simp only [List.map_cons, List.foldl_cons, fileStepR, fileRunK]
+      have : fileBatchR m { st := s, need := false } (b.1, b.2) = { st := fileBatchK m s b, need := false } := by
+        unfold fileBatchR fileBatchK
+        split
+        · rfl
+        · exact flushR_noNeed m _ b.2
+      rw [this]; exact ih _
+  simp only [fileRunR, List.foldl_append, List.foldl_cons, List.foldl_nil]
+  rw [show ({} : FileStR) = { st := {}, need := false } from rfl, key]
+  simp only [fileStepR]
+  rw [key]
+
+/-- the trace acceptor executes the length images: they are the length images of the repaired `flush()` and of `closeLogFile()` -/
+theorem C09_flushR_len (max : Nat) (s : FileStR) (o : FOracle) :
+    (flushR max s o).len = flushRLen max s.len o ∧ (reopenK s).len = reopenLen s.len :=
+  ⟨flushR_len max s o, reopenK_len s⟩
 
 /-! ### (a') widths: `uint32_t buff_size` / `text_len`, `size_t len`, `int` result of `vsnprintf` -/
 
